@@ -136,7 +136,9 @@ RETS = [
 RET = {x.key: x for x in RETS}
 
 # int-result returns (used under #[int_result])
-_CODE = "{ let c = (st >> 7) as i32; if c == 0 { 1 } else { c } }"
+# OS error codes: mostly arbitrary, one call in four a boundary value (the generic code 0xffff and its neighbours, extremes)
+_CODE = ("{ let c = if st & 0x60 == 0 { [0xffffi32, 0xfffe, 0x10000, -1, 1, i32::MAX, i32::MIN, -0xffff][((st >> 7) & 7) as usize] } else { (st >> 7) as i32 }; "
+         "if c == 0 { 1 } else { c } }")
 INT_RETS = [
     Ret("ir_u64_io", "Result<u64, std::io::Error>", "if st & 1 == 0 { Err(std::io::Error::from_raw_os_error(%s)) } else { Ok(st) }" % _CODE, "ret.dg()", int_result=True, c_kind="int"),
     Ret("ir_unit_io", "Result<(), std::io::Error>", "if st & 1 == 0 { Err(std::io::Error::from_raw_os_error(%s)) } else { Ok(()) }" % _CODE, "ret.dg()", int_result=True, c_kind="int"),
